@@ -343,6 +343,12 @@ func (x *Exec) choices(sc *Scenario) ([]Choice, []int) {
 				lastEnabled = true
 			}
 		}
+		firstOfProc := map[string]*pending{}
+		for _, c := range cs {
+			if c.p != nil && firstOfProc[c.Proc] == nil {
+				firstOfProc[c.Proc] = c.p
+			}
+		}
 		for i, c := range cs {
 			cost := 0
 			if c.Alt > 0 {
@@ -353,8 +359,13 @@ func (x *Exec) choices(sc *Scenario) ([]Choice, []int) {
 				if !lastEnabled && len(ps) == 0 {
 					cost = 0
 				}
-			} else if lastEnabled && c.Proc != x.lastProc {
-				cost++
+			} else {
+				if lastEnabled && c.Proc != x.lastProc {
+					cost++ // preemption
+				}
+				if firstOfProc[c.Proc] != c.p {
+					cost++ // within one process the oldest parked event is the default (FIFO)
+				}
 			}
 			costs[i] = cost
 		}
